@@ -56,12 +56,12 @@ def c12(ctx):
         "non-trivial := reported" % cnt.get("rule_unknown_flags_items", 0))
     ctx.correspondence("validate_flags: model vs implementation", cnt["flags"], cnt["flags"], by_kind["flags"][:10],
                        "all strings of length <= 3 over dgimsuyvzG, permutations of dgimsuy, random multisets and unknown letters")
-    ctx.correspondence("Grammar.v recogniser vs V8 on the fragment", 2 * cnt.get("grammar_strings", 0), cnt.get("grammar_accepted", 0),
+    ctx.correspondence("Grammar.v recogniser vs V8 on the fragment", cnt.get("grammar_strings", 0), cnt.get("grammar_accepted", 0),
                        r.get("grammar_mismatches", [])[:10],
-                       "every in_fragment string of length <= %d over the alphabet %s, with and without u: the extracted recogniser "
-                       "(FragParser.recognises, proved equivalent to the inductive predicate Pattern u of Regex/Grammar.v on the fragment: "
-                       "C12_recogniser_decides_grammar) accepts iff `new RegExp` does not throw; non-trivial := accepted string"
-                       % (6 if ctx.tier == "thorough" else 5, "".join(R.FRAGMENT_ALPHABET)))
+                       "every string of length <= %d over the alphabet %s plus sampled strings of length 7, each in the modes in which it "
+                       "satisfies in_fragment: the extracted recogniser (FragParser.recognises, proved equivalent to the inductive predicate "
+                       "Pattern u of Regex/Grammar.v: C12_recogniser_decides_grammar) accepts iff `new RegExp` does not throw; "
+                       "non-trivial := accepted string" % (5 if ctx.tier == "thorough" else 4, "".join(R.FRAGMENT_ALPHABET)))
     ctx.obligation("extracted model started from a deliberately dirty validator state decides like a fresh one (%d cases)" % cnt["dirty_cases"],
                    not r["dirty"], json.dumps(r["dirty"][:3], ensure_ascii=False))
     ctx.extra["regex_counts"] = cnt
